@@ -71,9 +71,12 @@ func genStep(t *rapid.T) Step {
 		for i := 0; i < n; i++ {
 			s.Seq.Txs = append(s.Seq.Txs, genTx(t))
 		}
-		if rapid.IntRange(0, 19).Draw(t, "huge") == 0 {
+		if rapid.IntRange(0, world.Scale(19, 99)).Draw(t, "huge") == 0 {
 			// a batch of several megabytes (the single sequencer puts no bound on a batch)
 			s.Seq.Blowup = rapid.SampledFrom([]int{300_000, 700_000, 1_600_000}).Draw(t, "blowup")
+		} else if rapid.IntRange(0, 14).Draw(t, "manytxs") == 0 {
+			// a batch of hundreds or thousands of transactions
+			s.Seq.Many = rapid.SampledFrom([]int{40, 130, 260, 700, 2100}).Draw(t, "many")
 		}
 	}
 	s.Seq.DeltaNs = genDelta(t)
